@@ -241,6 +241,70 @@ theorem mean_many_truncated (hl : A.Lawful) (hfi : A.fresh A.init = true)
     simp [verdict, many, hwk, hnf, isDone]
   simp only [mean, h1, many_run_from_boundary A p s1 hb1 hinit hp, h2, hv]
 
+/-- as long as no unit completes, the repetition is the unit automaton -/
+theorem many_run_no_done (inp : Bytes) (s : A.σ) (hs : A.phase s ≠ .done)
+    (hend : A.phase (A.run inp s).1 ≠ .done) : A.many.run inp s = A.run inp s := by
+  induction inp generalizing s with
+  | nil => rfl
+  | cons b inp ih =>
+    cases hp : A.phase s with
+    | done => exact absurd hp hs
+    | failed e =>
+      have h1 : A.phase s ≠ .working := by rw [hp]; intro hc; cases hc
+      have h2 : A.many.phase s ≠ .working := by
+        show (match A.phase s with | .done => Phase.working | p => p) ≠ _
+        rw [hp]; intro hc; cases hc
+      rw [run_stopped A _ s h1]
+      exact run_stopped A.many _ s h2
+    | working =>
+      rw [run_cons_working A b inp s hp] at hend
+      have h1 : A.phase (A.step s b).1 ≠ .done := by
+        intro hd
+        have hnw : A.phase (A.step s b).1 ≠ .working := by rw [hd]; intro hc; cases hc
+        rw [run_stopped A inp _ hnw] at hend
+        exact hend hd
+      rw [run_cons_working A.many b inp s (many_phase_working A s hp), many_step_working A s b hp,
+        run_cons_working A b inp s hp, ih _ h1 hend]
+      rfl
+
+/-- complete units followed by something: the units' outputs, then what the rest means from a
+fresh start -/
+theorem mean_many_units_then (hl : A.Lawful) (hfi : A.fresh A.init = true)
+    (us : List (Bytes × Bytes)) (hus : ∀ u ∈ us, A.IsUnit u.1 u.2) (r : Bytes) (hr : r ≠ [])
+    (fin : Term) :
+    A.many.mean fin ((us.map (·.1)).flatten ++ r) A.init =
+      ((us.map (·.2)).flatten ++ (A.many.mean fin r A.init).1, (A.many.mean fin r A.init).2) := by
+  have hinit := hl.fresh_working _ hfi
+  obtain ⟨s1, hb1, h1⟩ := many_units A hinit us hus A.init (Or.inl rfl) r
+  simp only [mean, h1, many_run_from_boundary A r s1 hb1 hinit hr]
+
+/-- a unit that fails: the repetition reports what the unit automaton reports -/
+theorem mean_many_of_failed (inp : Bytes) (e : Term) (o rest : Bytes) (sf : A.σ)
+    (hinit : A.phase A.init = .working)
+    (hrun : A.run inp A.init = (sf, o, rest)) (hf : A.phase sf = .failed e) (fin : Term) :
+    A.many.mean fin inp A.init = (o, e) := by
+  have h0 : A.phase A.init ≠ .done := by rw [hinit]; intro hc; cases hc
+  have h1 : A.phase (A.run inp A.init).1 ≠ .done := by rw [hrun, hf]; intro hc; cases hc
+  simp only [mean, many_run_no_done A inp A.init h0 h1, hrun]
+  congr 1
+  show (match (match A.phase sf with | .done => Phase.working | p => p) with
+    | .done => Term.eof | .failed e => e | .working => _) = e
+  rw [hf]
+
+/-- a unit that is still working when the input ends (and has consumed something): the
+repetition ends in `noEOF fin` -/
+theorem mean_many_of_working (hl : A.Lawful) (b : UInt8) (inp : Bytes) (o : Bytes) (sw : A.σ)
+    (hinit : A.phase A.init = .working)
+    (hrun : A.run (b :: inp) A.init = (sw, o, [])) (hw : A.phase sw = .working) (fin : Term) :
+    A.many.mean fin (b :: inp) A.init = (o, noEOF fin) := by
+  have h0 : A.phase A.init ≠ .done := by rw [hinit]; intro hc; cases hc
+  have h1 : A.phase (A.run (b :: inp) A.init).1 ≠ .done := by rw [hrun, hw]; intro hc; cases hc
+  have hnf := run_not_fresh A hl b inp A.init hinit (by rw [hrun])
+  rw [hrun] at hnf
+  simp only [mean, many_run_no_done A _ A.init h0 h1, hrun]
+  congr 1
+  simp [verdict, many, hw, hnf, isDone]
+
 /-! ### single unit (raw DEFLATE: nothing is consumed after the final block) -/
 
 /-- a complete unit followed by anything: the output, a clean end, the rest untouched -/
